@@ -21,6 +21,12 @@ pub const NHANDLES: usize = 6;
 pub struct HarnessPanic;
 
 /// a panic that was neither scripted (`panic` op) nor an injected trace fault
+thread_local! {
+    /// message and location of the last unexpected panic (set by the panic hook in main.rs)
+    pub static LAST_PANIC: std::cell::RefCell<String> = const { std::cell::RefCell::new(String::new()) };
+}
+fn last_panic() -> String { LAST_PANIC.with(|p| p.borrow().clone()) }
+
 fn unexpected(e: &Box<dyn std::any::Any + Send>) -> bool {
     !(e.is::<HarnessPanic>() || e.is::<InjectedPanic>())
 }
@@ -332,7 +338,7 @@ impl World {
                 let (code, marked) = match r {
                     Ok(Some(m)) => (0, m),
                     Ok(None) => (0, marked_phase),
-                    Err(e) => { if unexpected(&e) { self.alarms.push("unexpected panic inside a collection call".into()); } (1, marked_phase) }
+                    Err(e) => { if unexpected(&e) { self.alarms.push(format!("unexpected panic inside a collection call: {}", last_panic())); } (1, marked_phase) }
                 };
                 self.arenas[ai] = Some(arena);
                 self.emit(op, &[code, marked as i64], None)
@@ -378,14 +384,26 @@ impl World {
                     return self.skip(op);
                 }
                 let src_h = self.handles[hi].as_ref().unwrap();
-                let c = HandleRec { h: src_h.h.clone(), uid: src_h.uid, set_id: src_h.set_id, ptr_id: src_h.ptr_id };
-                self.handles[h2i] = Some(c);
-                self.emit(op, &[1], None)
+                match panic::catch_unwind(AssertUnwindSafe(|| src_h.h.clone())) {
+                    Ok(hc) => {
+                        let c = HandleRec { h: hc, uid: src_h.uid, set_id: src_h.set_id, ptr_id: src_h.ptr_id };
+                        self.handles[h2i] = Some(c);
+                        self.emit(op, &[1], None)
+                    }
+                    Err(_) => {
+                        self.alarms.push(format!("DynamicRootSet: cloning a live handle panicked: {}", last_panic()));
+                        self.emit(op, &[9], None)
+                    }
+                }
             }
             Op::DropH(h) => {
                 let hi = h as usize;
                 if hi >= NHANDLES || self.handles[hi].is_none() { return self.skip(op); }
-                self.handles[hi] = None;
+                let rec = self.handles[hi].take();
+                if panic::catch_unwind(AssertUnwindSafe(move || drop(rec))).is_err() {
+                    self.alarms.push(format!("DynamicRootSet: dropping a live handle panicked: {}", last_panic()));
+                    return self.emit(op, &[9], None);
+                }
                 self.emit(op, &[1], None)
             }
         }
@@ -427,7 +445,7 @@ impl World {
                         self.emit(Op::EndErr, &[tot as i64], None)
                     }
                     Err(e) => {
-                        if unexpected(&e) { self.alarms.push("unexpected panic inside a constructor / map_root callback".into()); }
+                        if unexpected(&e) { self.alarms.push(format!("unexpected panic inside a constructor / map_root callback: {}", last_panic())); }
                         let book = self.books[ai].take().unwrap();
                         let tot = book.metrics.as_ref().map(|m| m.total_gc_count()).unwrap_or(0);
                         self.emit(Op::Panic, &[tot as i64], None)
@@ -479,7 +497,7 @@ impl World {
                         self.emit(Op::EndErr, &[tot as i64], None)
                     }
                     Err(e) => {
-                        if unexpected(&e) { self.alarms.push("unexpected panic inside a constructor / map_root callback".into()); }
+                        if unexpected(&e) { self.alarms.push(format!("unexpected panic inside a constructor / map_root callback: {}", last_panic())); }
                         let book = self.books[ai].take().unwrap();
                         let tot = book.metrics.as_ref().map(|m| m.total_gc_count()).unwrap_or(0);
                         self.emit(Op::Panic, &[tot as i64], None)
@@ -521,7 +539,7 @@ impl World {
                 match r {
                     Ok(Some(Term::EndErr)) => self.emit(Op::EndErr, &[0], None),
                     Ok(_) => self.emit(Op::End, &[0], None),
-                    Err(e) => { if unexpected(&e) { self.alarms.push("unexpected panic inside a finalize callback".into()); } self.emit(Op::Panic, &[0], None) }
+                    Err(e) => { if unexpected(&e) { self.alarms.push(format!("unexpected panic inside a finalize callback: {}", last_panic())); } self.emit(Op::Panic, &[0], None) }
                 }
             }
         }
@@ -531,7 +549,7 @@ impl World {
         match r {
             Ok(Term::End) => self.emit(Op::End, &[0], None),
             Ok(Term::EndErr) => self.emit(Op::EndErr, &[0], None),
-            Err(e) => { if unexpected(&e) { self.alarms.push("unexpected panic inside a mutate callback (barrier / setter / allocation)".into()); } self.emit(Op::Panic, &[0], None) }
+            Err(e) => { if unexpected(&e) { self.alarms.push(format!("unexpected panic inside a mutate callback (barrier / setter / allocation): {}", last_panic())); } self.emit(Op::Panic, &[0], None) }
         }
     }
 
@@ -581,20 +599,30 @@ impl World {
                 Some(o @ Op::CloneH(h2, h)) => {
                     let (h2i, hi) = (h2 as usize, h as usize);
                     let ok = h2i < NHANDLES && hi < NHANDLES && self.handles[h2i].is_none() && self.handles[hi].is_some();
+                    let mut code = if ok { 1 } else { -2 };
                     if ok {
                         let sh = self.handles[hi].as_ref().unwrap();
-                        let c = HandleRec { h: sh.h.clone(), uid: sh.uid, set_id: sh.set_id, ptr_id: sh.ptr_id };
-                        self.handles[h2i] = Some(c);
+                        match panic::catch_unwind(AssertUnwindSafe(|| sh.h.clone())) {
+                            Ok(hc) => { let c = HandleRec { h: hc, uid: sh.uid, set_id: sh.set_id, ptr_id: sh.ptr_id }; self.handles[h2i] = Some(c); }
+                            Err(_) => { self.alarms.push(format!("DynamicRootSet: cloning a live handle panicked: {}", last_panic())); code = 9; }
+                        }
                     }
                     let s = mc.verif_snapshot();
-                    snaps = self.emit(o, &[if ok { 1 } else { -2 }], Some((a, &s)));
+                    snaps = self.emit(o, &[code], Some((a, &s)));
                 }
                 Some(o @ Op::DropH(h)) => {
                     let hi = h as usize;
                     let ok = hi < NHANDLES && self.handles[hi].is_some();
-                    if ok { self.handles[hi] = None; }
+                    let mut code = if ok { 1 } else { -2 };
+                    if ok {
+                        let rec = self.handles[hi].take();
+                        if panic::catch_unwind(AssertUnwindSafe(move || drop(rec))).is_err() {
+                            self.alarms.push(format!("DynamicRootSet: dropping a live handle panicked: {}", last_panic()));
+                            code = 9;
+                        }
+                    }
                     let s = mc.verif_snapshot();
-                    snaps = self.emit(o, &[if ok { 1 } else { -2 }], Some((a, &s)));
+                    snaps = self.emit(o, &[code], Some((a, &s)));
                 }
                 Some(o) => {
                     // API ops are not available inside a callback
@@ -692,7 +720,7 @@ impl World {
                 let mk = alloc_track::mark();
                 let p = match kind {
                     Kind::Node => Any::Node(Gc::new(mc, RefLock::new(NodeData { tag, strong: vec![None; ns as usize], weak: vec![None; nw as usize] }))),
-                    Kind::Leaf => Any::Leaf(Gc::new(mc, RefLock::new(LeafData { tag, n: 0 }))),
+                    Kind::Leaf => Any::Leaf(Gc::new(mc, LeafData { tag, n: std::cell::Cell::new(0) })),
                     Kind::Set => { std::mem::forget(tag); Any::Set(DynamicRootSet::new(mc)) }
                     Kind::Lock => { std::mem::forget(tag); Any::Lock(Gc::new(mc, Lock::new(None))) }
                     Kind::Once => { std::mem::forget(tag); Any::Once(Gc::new(mc, OnceLock::new())) }
@@ -727,7 +755,7 @@ impl World {
                 let v = match rg(cb, p) {
                     None | Some(Any::Set(_)) => return vec![SKIP],
                     Some(Any::Node(g)) => g.borrow().strong.get(i).copied().flatten(),
-                    Some(Any::Leaf(g)) => { let _ = g.borrow().n; None }
+                    Some(Any::Leaf(g)) => { let _ = g.n.get(); None }
                     Some(Any::Lock(g)) => if i == 0 { g.get() } else { None },
                     Some(Any::Once(g)) => if i == 0 { g.get().copied() } else { None },
                     Some(Any::Struct(g)) => match i {
@@ -745,7 +773,7 @@ impl World {
                     None => return vec![SKIP],
                     Some(Any::Node(g)) => g.borrow().weak.get(i).copied().flatten(),
                     Some(Any::Struct(g)) => g.weak.borrow().get(i).copied().flatten(),
-                    Some(Any::Leaf(g)) => { let _ = g.borrow().n; None }
+                    Some(Any::Leaf(g)) => { let _ = g.n.get(); None }
                     Some(_) => None,
                 };
                 setw(cb, w, v);
@@ -758,7 +786,7 @@ impl World {
                 let pid = self.uid_of(ai, &pp);
                 match pp {
                     Any::Set(_) => vec![SKIP],
-                    Any::Leaf(g) => { g.borrow_mut(mc).n += 1; cb.lics.push(Lic::Parent(pid)); vec![0] }
+                    Any::Leaf(g) => { let _ = Gc::write(mc, g); g.n.set(g.n.get().wrapping_add(1)); cb.lics.push(Lic::Parent(pid)); vec![0] }
                     Any::Node(g) => {
                         let mut b = g.borrow_mut(mc);
                         if i < b.strong.len() { b.strong[i] = v; }
